@@ -63,6 +63,9 @@ IdentLater(h, at) == \E c \in AncOf(ParSet(h.par))[at] : \E k \in 2..Len(h.par[c
 
 HasMerge(h, at) == \E c \in AncOf(ParSet(h.par))[at] : Len(h.par[c]) > 1
 
+\* some ancestor-or-self of `at` is a merge two of whose parents share an ancestor (blame reaches it along both)
+Diamond(h, at) == LET A == AncOf(ParSet(h.par)) IN
+                  \E m \in A[at] : \E j, k \in 1..Len(h.par[m]) : j < k /\ A[h.par[m][j]] \cap A[h.par[m][k]] # {}
 Clauses(h, at, out) ==
   [length   |-> Len(out) = Len(h.ver[at]) /\ \A i \in DOMAIN out : out[i] \in 1..NCm(h),
    contains |-> \A i \in DOMAIN out : i <= Len(h.ver[at]) /\ out[i] \in 1..NCm(h) => Conn(h, h.ver[at][i], at)[out[i]],
@@ -85,6 +88,7 @@ Row(hi) == LET h == HistSeq[hi] IN
    anc |-> [c \in 1..NCm(h) |-> SetToSeq(AncOf(ParSet(h.par))[c])],
    merge |-> [c \in 1..NCm(h) |-> HasMerge(h, c)],
    origin |-> IF Determinate(h) THEN [c \in 1..NCm(h) |-> Origin(h, c)] ELSE <<>>,
+   diamond |-> [c \in 1..NCm(h) |-> Diamond(h, c)],
    identlater |-> [c \in 1..NCm(h) |-> IdentLater(h, c)],
    fp |-> FPDet(h), fporigin |-> IF FPDet(h) THEN FPOriginMap(h) ELSE <<>>]
 ASSUME Emit => ndJsonSerialize("blame_hist.ndjson", [hi \in 1..Len(HistSeq) |-> Row(hi)])
